@@ -27,6 +27,16 @@ type hdr struct {
 	Name string   `json:"name"`
 	Revs []string `json:"revisions"`
 	ID   int      `json:"id"`
+	// NS is the namespace of this revision when it is not urn:<name>: a module may change
+	// its namespace from one revision to the next (never to that of a module of another name)
+	NS string `json:"ns,omitempty"`
+}
+
+func (h hdr) ns() string {
+	if h.NS != "" {
+		return h.NS
+	}
+	return "urn:" + h.Name
 }
 
 func (h hdr) latest() string {
@@ -40,7 +50,7 @@ func (h hdr) latest() string {
 }
 
 func (h hdr) text() string {
-	s := fmt.Sprintf("module %s { namespace \"urn:%s\"; prefix p; ", h.Name, h.Name)
+	s := fmt.Sprintf("module %s { namespace \"%s\"; prefix p; ", h.Name, h.ns())
 	for _, r := range h.Revs {
 		s += "revision " + r + "; "
 	}
@@ -75,6 +85,9 @@ func genHeaders(seed, c int64) ([]hdr, hdr, string) {
 		// up to four revision statements in any order: the latest one counts wherever it stands
 		for q := []int{0, 1, 1, 2, 2, 3, 4}[r.Intn(7)]; q > 0; q-- {
 			h.Revs = append(h.Revs, dates[r.Intn(len(dates))])
+		}
+		if r.Intn(3) == 0 {
+			h.NS = fmt.Sprintf("urn:%s:v%d", h.Name, r.Intn(2))
 		}
 		k := h.Name + "@" + h.latest()
 		if seen[k] {
@@ -368,7 +381,7 @@ func checkHeaders(j *job.Job, s *job.Sink, c int64, hs []hdr, imp hdr, importer 
 						if im, err := e.InstantiatingModule(); err != nil || im != m.Name {
 							bad("instmodule-with-several-revisions", fmt.Sprintf("load order %v: InstantiatingModule of %s in %s = %q, %v", p, e.Name, key, im, err), nil)
 						}
-						if ns := e.Namespace(); ns == nil || ns.Name != "urn:"+m.Name {
+						if ns := e.Namespace(); ns == nil || ns.Name != m.Namespace.Name || !strings.HasPrefix(ns.Name, "urn:"+m.Name) {
 							bad("instmodule-namespace", fmt.Sprintf("load order %v: Namespace of %s in %s", p, e.Name, key), nil)
 						}
 					}
